@@ -28,7 +28,71 @@ def jobs(tier, seed):
             js.append({"label": f"{spec[0]}{spec[1]}|cancel,noack1", "wl": spec, "budget": {"cancel": 1, "noack": 1},
                        "max_states": 400000})
             js.append({"label": f"{spec[0]}{spec[1]}|cancel,early1", "wl": spec, "budget": {"cancel": 1, "early": 1}})
+    for spec in [wl("chain3"), wl("diamond"), wl("multitask")] + ([wl("synthetic"), wl("fail_mid"), wl("jump_cycle", 2, 1)]
+                                                                if tier == "thorough" else []):
+        js.append({"label": f"{spec[0]}{spec[1]}|cancel at every step x crash at every commit after it", "wl": spec,
+                   "kind": "e2"})
     return js
+
+
+def run_e2(job):
+    """Worker death inside the cancel's own steps: in-order run, cancel requested before step k (every k), every
+    commit made from the request onwards is a crash point; restart, recovery sweep, lock expiry, drain - the
+    CancelMonitor (armed from the image) sees every execution and the final state."""
+    from vlib.e2 import CrashEngine
+
+    w = world()
+    workload = make_workload(job["wl"])
+    viols, evals, points, k = [], 0, 0, 0
+    while k < 60:
+        eng = CrashEngine(w, workload, monitors=[CancelMonitor()], budget={"cancel": 1})
+        ex = eng.ex
+        state = {"n": 0}
+
+        def pick(st, acts, step_no, _k=k, _s=state):
+            can = [a for a in acts if a[0] == "cancel"]
+            deliver = sorted([a for a in acts if a[0].startswith("d:")], key=lambda a: a[1])
+            if can and _s["n"] >= _k:
+                _s["cancel_step"] = step_no
+                return can[0]
+            _s["n"] += 1
+            if deliver:
+                return deliver[0]
+            rest = [a for a in acts if a[0] != "cancel"]
+            return rest[0] if rest else acts[0]
+
+        eng.pick = pick
+        final, ledger, snaps = eng.drive(ex.initial(), record=True)
+        if final.budget["cancel"] != 0:
+            break  # the run finished before step k: every moment has been covered
+        first = next((i for i, s in enumerate(snaps) if s.step > state["cancel_step"]), len(snaps))
+        points += len(snaps) - first
+        eng.mon_violations = []
+        for s in snaps[first:]:
+            for order in ("restart-first", "expire-first"):
+                f2, _post, _ = eng.recover(s, order)
+                evals += 1
+                mon = CancelMonitor()
+                ms = f2.mon.get("cancel") or mon.init(ex)
+                if ms["at"] is None and mon.processed(f2.view):
+                    ms = {"at": mon.classify(f2.view), "wf": f2.view.wf["status"]}
+                for v in mon.final(ex, f2.view, ms, f2):
+                    v["trace"] = list(f2.trace)
+                    eng.mon_violations.append(v)
+                for v in eng.mon_violations:
+                    v.setdefault("where", {"cancel_before_step": k, "crash_after_commit": s.k, "handling": s.action,
+                                           "order": order})
+        viols.extend(eng.mon_violations)
+        k += 1
+    out, seen = [], set()
+    for v in viols:
+        h = (v.get("where") or {}).get("handling", "")
+        v["signature"] = f"e2:{v['sig']}@{':'.join(h.split(':')[:2])}"
+        if v["signature"] not in seen:
+            seen.add(v["signature"])
+            out.append(v)
+    return {"states": points, "transitions": evals, "violations": out, "samples": [], "job_spec": job,
+            "crash_points": points, "cancel_moments": k}
 
 
 def build(job):
@@ -39,6 +103,8 @@ def build(job):
 
 
 def run_job(job):
+    if job.get("kind") == "e2":
+        return run_e2(job)
     ex = build(job).run()
     res = result_from(ex, "e1")
     res["job_spec"] = job
@@ -50,6 +116,9 @@ def aggregate(results, tier, seed, pre):
 
 
 def replay(payload):
+    if payload["job"].get("kind") == "e2":
+        r = run_e2(payload["job"])
+        return {"violations": [v for v in r["violations"] if v["signature"] == payload["violation"].get("signature")]}
     ex = build(payload["job"])
     out, viols, st = ex.replay(payload["violation"]["trace"])
     return {"steps": out, "violations": viols, "final_outcome": st.view.outcome()}
